@@ -903,8 +903,21 @@ Proof.
 Qed.
 
 (* ---- the operations of the plan, item by item *)
-Lemma ent_kind : forall c it, entry_kind (Some (e_attr (ent c it))) = Some (i_kind it).
-Proof. intros. cbn [ent e_attr]. apply (mode_roundtrip (i_kind it) (i_mode it)). Qed.
+Lemma ent_kind : forall c it, entry_kind_e (ent c it) = Some (i_kind it).
+Proof.
+  intros. unfold entry_kind_e, e_emptyfile. cbn [ent e_attr e_empty].
+  destruct (i_kind it) eqn:K; cbn [emptystream_of];
+    [rewrite entry_kind_f_data by reflexivity | apply entry_kind_f_nodata; reflexivity | rewrite entry_kind_f_data by reflexivity];
+    rewrite <- K; apply (mode_roundtrip (i_kind it) (i_mode it)).
+Qed.
+(* what is_directory answers for an entry of the walk: the kind (from the flags for a directory, from the attribute otherwise) *)
+Lemma ent_is_dir : forall c it, is_dir_e (ent c it) = kind_eqb (i_kind it) KDir.
+Proof.
+  intros. unfold is_dir_e, e_emptyfile, is_directory. cbn [ent e_attr e_empty].
+  destruct (i_kind it) eqn:K; cbn [emptystream_of flag_set negb kind_eqb]; try reflexivity.
+  - pose proof (mode_roundtrip KFile (i_mode it)) as R. cbv zeta in R. destruct R as (_ & _ & Rd & _). exact Rd.
+  - pose proof (mode_roundtrip KLink (i_mode it)) as R. cbv zeta in R. destruct R as (_ & _ & Rd & _). exact Rd.
+Qed.
 
 Lemma no_slash_cons : forall c n, no_slash (c :: n) = true -> (c =? slash) = false /\ no_slash n = true.
 Proof.
@@ -990,9 +1003,7 @@ Proof.
     assert (E : mkdir_paths (Dir a b []) (map (fun it => (arcpre c ++ i_rel it, ent c it)) its) =
                 map (fun it => arcpre c ++ i_rel it) (filter (fun it => kind_eqb (i_kind it) KDir) its)).
     { unfold mkdir_paths. clear Hok Hs. induction Hne as [| it its Hit _ IH]; [reflexivity |].
-      cbn [map filter fst snd]. unfold is_dir_e at 1.
-      pose proof (mode_roundtrip (i_kind it) (i_mode it)) as R. cbv zeta in R. destruct R as (_ & _ & Rd & _).
-      cbn [ent e_attr]. rewrite Rd.
+      cbn [map filter fst snd]. rewrite ent_is_dir.
       destruct (arcpre c ++ i_rel it) as [| x p] eqn:E; [contradiction |]. rewrite exists_b_empty. cbn [negb].
       rewrite andb_true_r. destruct (kind_eqb (i_kind it) KDir); cbn [map fst]; rewrite ?E, IH; reflexivity. }
     rewrite E. rewrite sort_paths_sorted.
